@@ -112,6 +112,26 @@ def codegen_options(root, tag):
         c.sc.stop(); shutil.rmtree(root, ignore_errors=True)
     return {'requests': reqs, 'codegen_scenarios': len(scen), 'fails': fails, 'samples': samples}
 
+def artifact_notifications(root, tag):
+    """cargo's `--error-format=json --json=artifacts`: rustc reports every file it has written on stderr.  The same crate compiled into
+    out directory A, then into B: the second request's notifications must name the files under B (F-C05-d: they name A — the key does not
+    depend on --out-dir, the stored stderr does)"""
+    c = Crate(root, tag); fails = []; trace = []
+    c.sc.start()
+    try:
+        for od in ('outA', 'outB'):
+            os.makedirs(os.path.join(c.w, od), exist_ok=True)
+            argv = [a if a != 'out' else od for a in c.argv(0)] + ['--error-format=json', '--json=artifacts']
+            r = c.sc.compile(argv, c.w, env=c.env, timeout=300)
+            shutil.rmtree(os.path.join(c.w, od)); os.makedirs(os.path.join(c.w, od))
+            d = subprocess.run(argv, cwd=c.w, env=dict(os.environ, **c.env), capture_output=True)
+            trace.append(f'--out-dir {od}: rc={r.returncode}; notifications {[l.decode(errors="replace")[:70] for l in r.stderr.splitlines() if b"artifact" in l][:3]}')
+            if (r.returncode, r.stderr) != (d.returncode, d.stderr):
+                fails.append({'kind': 'rustc_differs_from_direct', 'detail': f'artifact notifications: with --out-dir {od} the messages on stderr differ from the direct rustc run (they name another directory)', 'ops': list(trace)}); break
+    finally:
+        c.sc.stop(); shutil.rmtree(root, ignore_errors=True)
+    return {'requests': 2, 'fails': fails, 'samples': trace[:1]}
+
 def extern_alias(root, tag):
     """F-C05-a witness on the real binary: swap which crate name is bound to which rlib"""
     shutil.rmtree(root, ignore_errors=True); w = os.path.join(root, 'w'); os.makedirs(os.path.join(w, 'out'))
